@@ -25,7 +25,7 @@
 /* vg_quiet > 0: control is inside a callee that is reached through a function pointer (column handler /
    footer / progress callback) and whose own group carries its sink obligations; the sinks then check
    memory safety only.  Set by ghost statements woven around the pointer call (contracts/src/list.c.spec)
-   and by the lha_reader_check / lha_reader_extract stand-ins below. */
+   and by the lha_reader_check / lha_reader_extract stand-ins in h_print_extract.c. */
 int vg_quiet;
 /* number of calls of checking sinks / of the raw (file data) sink */
 unsigned vg_sunk;
@@ -193,7 +193,28 @@ static size_t vg_fwrite(const void *ptr, size_t size, size_t nmemb, FILE *stream
 /* ASSUME: fflush writes nothing new. */
 static int vg_fflush(FILE *stream) { (void) stream; return 0; }
 
-/* vprintf / vfprintf are not used by the tool; a use would be a compile error here (no silent escape). */
+/* vprintf / vfprintf and the other libc ways of writing to the terminal are not used by the three files; a
+   (future) use must not escape silently as a body-less call, so each of these names is turned into an
+   undeclared identifier: the harness then fails to compile (engine: undecided, exit 2) until it is modelled. */
+#define VG_POISON(name) VG_SINK_NOT_MODELLED_##name
+#define write            VG_POISON(write)
+#define pwrite           VG_POISON(pwrite)
+#define dprintf          VG_POISON(dprintf)
+#define vdprintf         VG_POISON(vdprintf)
+#define perror           VG_POISON(perror)
+#define putw             VG_POISON(putw)
+#define fputs_unlocked   VG_POISON(fputs_unlocked)
+#define fputc_unlocked   VG_POISON(fputc_unlocked)
+#undef putc_unlocked
+#define putc_unlocked    VG_POISON(putc_unlocked)
+#undef putchar_unlocked
+#define putchar_unlocked VG_POISON(putchar_unlocked)
+#define fwrite_unlocked  VG_POISON(fwrite_unlocked)
+#define wprintf          VG_POISON(wprintf)
+#define fwprintf         VG_POISON(fwprintf)
+#define system           VG_POISON(system)
+#define popen            VG_POISON(popen)
+#define syslog           VG_POISON(syslog)
 #define printf(...)          vg_out(NULL, VG_ARGS(__VA_ARGS__))
 #define fprintf(stream, ...) vg_out(stream, VG_ARGS(__VA_ARGS__))
 #define vprintf   VG_SINK_NOT_MODELLED_vprintf
@@ -214,30 +235,20 @@ static int vg_fflush(FILE *stream) { (void) stream; return 0; }
    (groups print.safe_printf / print.safe_fprintf in h_print_safe.c: whatever the formatting result is,
    only bytes 0x20..0x7E reach the stream) is applied here by hand: nothing reaches a checking sink.
    What is still checked at every call site is the callee's precondition, i.e. vasprintf's: the format
-   is a valid string using %s only, and every %s argument is a readable NUL-terminated string (C08). */
+   is a valid string, every conversion has an argument of its kind, and every %s argument is a readable
+   NUL-terminated string (C08). */
 #ifndef VG_REAL_SAFE
 #include "safe.h"
 unsigned vg_safe_sunk;
 static int vg_safe_out(FILE *stream, const char *fmt, unsigned nargs, vg_arg_t a0, vg_arg_t a1, vg_arg_t a2, vg_arg_t a3, vg_arg_t a4, vg_arg_t a5)
 {
-	vg_arg_t cur;
-	size_t i = 0, k;
-	unsigned a = 0;
-	(void) stream;
-	__CPROVER_assert(fmt != NULL, "C08 safe_printf: format is not NULL");
-	while (fmt[i] != 0) {
-		char c = fmt[i++];
-		if (c != '%') continue;
-		c = fmt[i++];
-		__CPROVER_assert(c == 's', "safe_printf stand-in: only %s is used with safe_printf by the tool");
-		__CPROVER_assert(a < nargs && a < 6, "C08 safe_printf: every conversion has an argument");
-		cur = a == 0 ? a0 : a == 1 ? a1 : a == 2 ? a2 : a == 3 ? a3 : a == 4 ? a4 : a5;
-		__CPROVER_assert(cur.tag == 1, "C08 safe_printf: %s gets a string argument");
-		__CPROVER_assert(cur.s != NULL, "C08 safe_printf: %s argument is not NULL");
-		for (k = 0; cur.s[k] != 0; k++) { }
-		a++;
-	}
-	__CPROVER_assert(a == nargs, "safe_printf stand-in: every argument is consumed by a conversion");
+	/* same format walk as the checking sink, with the byte-class obligations off: what remains is the
+	   formatter's precondition (valid format, one argument of the right kind per conversion, every %s
+	   argument a non-NULL NUL-terminated string) */
+	vg_quiet++;
+	(void) vg_out(stream, fmt, nargs, a0, a1, a2, a3, a4, a5);
+	vg_quiet--;
+	vg_sunk--;
 	vg_safe_sunk++;
 	return nondet_int();
 }
